@@ -59,6 +59,12 @@ type Disk struct {
 	stableOps       int64 // stable-store operations performed so far (S2 sweeps)
 	crashAtStableOp int64
 	failAtStableOp  int64
+	// S2 replication sweep: crash before/after, or fail, the k-th operation of any kind
+	sweepCrashAt int64
+	sweepAfter   bool
+	sweepFailAt  int64
+	recordOps    bool
+	opMutating   []bool // per operation performed (recordOps): did it change the durable image
 }
 
 func newDisk(n *Node) *Disk {
@@ -186,6 +192,20 @@ func (s *store) pre(op string, mutating bool) error {
 			return errInjected
 		}
 	}
+	if d.recordOps {
+		d.opMutating = append(d.opMutating, mutating)
+	}
+	if d.sweepCrashAt != 0 && d.opCount == d.sweepCrashAt && !d.sweepAfter {
+		d.sweepCrashAt = 0
+		w.stats.fault("crash_before_disk_op")
+		w.crashNow(s.inc.node, "before "+op)
+		s.inc.checkAlive()
+	}
+	if d.sweepFailAt != 0 && d.opCount == d.sweepFailAt {
+		d.sweepFailAt = 0
+		w.stats.fault("disk_op_error")
+		return errInjected
+	}
 	if d.crashAtOp != 0 && d.opCount == d.crashAtOp && !d.crashAfter {
 		d.crashAtOp = 0
 		w.stats.fault("crash_before_disk_op")
@@ -217,6 +237,12 @@ func (s *store) post(op string) {
 		d.crashAtStableOp = 0
 		s.w.stats.fault("crash_after_stable_op")
 		s.w.crashNow(s.inc.node, "after stable "+op)
+		s.inc.checkAlive()
+	}
+	if d.sweepCrashAt != 0 && d.opCount == d.sweepCrashAt && d.sweepAfter {
+		d.sweepCrashAt = 0
+		s.w.stats.fault("crash_after_disk_op")
+		s.w.crashNow(s.inc.node, "after "+op)
 		s.inc.checkAlive()
 	}
 	if d.crashAtOp != 0 && d.opCount == d.crashAtOp && d.crashAfter {
